@@ -200,6 +200,10 @@ def check(prop, tier, replay=None):
                     if x == "X":
                         if not o["err"] and op != "cli":
                             run.violation(key, payload[key], {"why": "the rejected text was accepted after this history", "history": h})
+                        elif op != "cli" and o.get("etext") != solo[("parse", "X")].get("etext") and not any(
+                                isinstance(v["summary"], dict) and v["summary"].get("why", "").startswith("the diagnostic") for v in run.violations):
+                            run.violation(key, payload[key], {"why": "the diagnostic of the rejected text differs from the one a fresh process gives (hash seed, earlier calls)",
+                                                              "history": h, "config": cname, "got": (o.get("etext") or "")[:300], "fresh": (solo[("parse", "X")].get("etext") or "")[:300]})
                         if op == "cli":
                             obls.append({"id": key, "left": [], "right": [], "levs": solo[("cli", "X")]["rows"], "revs": o["rows"] or [[-1]]})
                         continue
